@@ -57,13 +57,110 @@ impl Shape {
     }
 }
 
+/// Scalar / index / offset arguments of the ops, drawn from bits of the Shape (`sel` is usually a
+/// shifted `sh.seed`). The classes follow the operations' CONTRACTS (doc comment, entry asserts, what
+/// the implementation supports), not the values the library's own tests happen to use: every class a
+/// contract distinguishes (zero, below one limb, an exact multiple of the radix, several limbs, the
+/// whole precision and beyond, either sign, first / middle / last index ...) is hit with a fixed share.
+pub mod draw {
+    /// A bit amount (shift, offset, power of two) for a vector of `limbs` limbs in radix `b`.
+    pub fn bits(sel: u64, b: usize, limbs: usize) -> usize {
+        let b = b.max(2);
+        let limbs = limbs.max(1);
+        let r = (sel >> 3) as usize;
+        match sel % 8 {
+            0 => 0,
+            1 => 1 + r % (b - 1),                 // below one limb
+            2 => b * (1 + r % limbs),             // an exact multiple of the radix, up to the whole precision
+            3 => b * limbs + r % (2 * b),         // the whole precision and beyond
+            4 => (b * limbs).saturating_sub(1 + r % b), // within the last limb
+            5 => b + 1 + r % b.max(b * (limbs - 1)), // more than one limb
+            _ => r % (b * (limbs + 1)),           // anywhere
+        }
+    }
+    /// A signed bit offset with the classes of [`bits`].
+    pub fn offset(sel: u64, b: usize, limbs: usize) -> i64 {
+        let v = bits(sel >> 1, b, limbs) as i64;
+        if sel & 1 == 1 { -v } else { v }
+    }
+    /// An odd Galois element for ring degree `n`: the generators the library's tests use, the identity,
+    /// -1, their negatives, values at and beyond the cyclotomic order, large ones.
+    pub fn galois(sel: u64, n: u32) -> i64 {
+        let two_n = 2 * n as i64;
+        let t = [
+            5,
+            -1,
+            3,
+            25,
+            1,
+            -5,
+            two_n - 1,
+            two_n + 1,
+            -(two_n - 1),
+            -(two_n + 3),
+            4 * two_n + 5,
+            125,
+            (1i64 << 40) + 3,
+            -((1i64 << 33) + 5),
+            n as i64 + 1,
+            n as i64 - 1,
+        ];
+        t[(sel % t.len() as u64) as usize]
+    }
+    /// A rotation amount (power of X): 0, +-1, around N and 2N, beyond 2N, either sign, large.
+    pub fn rotation(sel: u64, n: u32) -> i64 {
+        let n = n as i64;
+        let r = (sel >> 4) as i64;
+        match sel % 16 {
+            0 => 0,
+            1 => 1,
+            2 => -1,
+            3 => n - 1,
+            4 => n,
+            5 => n + 1,
+            6 => 2 * n - 1,
+            7 => 2 * n,
+            8 => -n,
+            9 => -(2 * n - 1),
+            10 => 2 * n + 1 + r % (4 * n),
+            11 => -(2 * n + 1 + r % (4 * n)),
+            12 => (1i64 << 40) + r % (2 * n),
+            _ => r % (4 * n) - 2 * n,
+        }
+    }
+    /// An index below `len`: first, last, middle, anywhere.
+    pub fn index(sel: u64, len: usize) -> usize {
+        let len = len.max(1);
+        match sel % 4 {
+            0 => 0,
+            1 => len - 1,
+            2 => len / 2,
+            _ => (sel >> 2) as usize % len,
+        }
+    }
+    /// A thread count for `items` work items: 1, 2, one that does not divide the items, one above the
+    /// items, one above 32.
+    pub fn threads(sel: u64, items: usize) -> usize {
+        let items = items.max(1);
+        match sel % 8 {
+            0 => 1,
+            1 => 2,
+            2 => (2..=items + 1).find(|t| items % t != 0).unwrap_or(3),
+            3 => items + 1 + (sel >> 3) as usize % 3,
+            4 => 33 + (sel >> 3) as usize % 4,
+            5 => items,
+            _ => 2 + (sel >> 3) as usize % 5,
+        }
+    }
+}
+
 macro_rules! core_ops_impl {
     ($be:ty) => {
         pub mod ops {
             use super::*;
             use crate::c12::ops::Shape;
             use poulpy_core::layouts::{
-                Dnum, GGLWEPreparedFactory, GGSW, GGSWPreparedFactory, GLWEAutomorphismKey, GLWEAutomorphismKeyLayout,
+                Dnum, GGSW, GGSWPreparedFactory, GLWEAutomorphismKey, GLWEAutomorphismKeyLayout,
                 GLWEAutomorphismKeyPreparedFactory, GLWEPlaintext, GLWESwitchingKey, GLWESwitchingKeyLayout,
                 GLWESwitchingKeyPreparedFactory,
             };
